@@ -506,7 +506,9 @@ def self_once(rep, u):
                 undec = "direct-call guard not evaluable"
             ca += 1 if r == "sure" else 0
         pe = r_stride.PE(u)
-        bindb = {"tpt": 0x2222, "udata": 0x6000, "msg_data": 0x6000, "msg_data->flags": fl, "msg_data->tpt": 0x1111, key(nxt[0]): 29}
+        bindb = {"tpt": 0x2222, "udata": 0x6000, "msg_data": 0x6000, "msg_data->flags": fl, "msg_data->tpt": 0x1111, key(nxt[0]): 29,
+                 # originator and forwarding thread belong to the same pool (the foreign-originator case is R-OBO's)
+                 "tpt_get_tp(msg_data->tpt)": 0x1000, "tpt_get_tp(tpt)": 0x1000}
         pos, c = b_sites[0]
         r, path = pe.reach_stmt(fb, fb.entry, set(fb.reachable_blocks()), bindb, pos[0], fb.blocks[pos[0]].elems[pos[1]])
         if r == "unsure":
@@ -586,6 +588,7 @@ def run(rep, tier):
     c10_audit.sync_mask_rule(rep, u, fl)
     rep.floor("one-by-one chain starters", c10_audit.obo_sibling_rule(rep, u), 2)
     c10_audit.origin_running_rule(rep, u)
+    rep.floor("plain-mode exits of cbsend", c10_audit.cbsend_exit_rules(rep, u), 2)
     return driver.finish(
         rep, "other",
         "Static analysis of the broadcast code in threadpool_msg_sys.c. Decided: the shared countdown is touched only "
